@@ -160,29 +160,6 @@ partial def declToJson : FieldDecl → Json
   | .noneF => Json.mkObj [("k", "noneF")]
   | .anything => Json.mkObj [("k", "anything")]
 
-/-- replace every `pattern` and every `str` default by the string its emitted literal denotes;
-    `none` when one of the literals is not a well-formed single literal (the module does not
-    compile, or means something else entirely) -/
-partial def effective (j : Json) : Option Json :=
-  match j with
-  | .arr xs => do
-    let ys ← xs.toList.mapM effective
-    pure (Json.arr ys.toArray)
-  | .obj kvs => do
-    let pairs ← kvs.toList.mapM fun (k, v) =>
-      if k == "pattern" || k == "default" then
-        match v with
-        | .str s => do
-          let t ← PyLex.pyLexStr (PyLex.wrapVal s)
-          pure (k, Json.str t)
-        | _ => pure (k, v)
-      else if k == "enum" then pure (k, v)
-      else do
-        let v' ← effective v
-        pure (k, v')
-    pure (Json.mkObj pairs)
-  | x => some x
-
 def siteJson (s : StringSite) : Json :=
   Json.mkObj [("site", Json.str s.site), ("source", Json.str s.source),
     ("lexed", match PyLex.pyLexStr s.source with | some v => Json.str v | none => Json.null),
@@ -206,45 +183,38 @@ def run (j : Json) : Except String Json := do
   let s ← Schema.ofJson sj
   let defs ← defsJ.mapM fun (n, d) => do pure (n, ← Schema.ofJson d)
   -- text
-  -- at top level the emitted `_required` is the list after the `remove`s
+  -- at top level the emitted `_required` is the private copy after the `remove`s
   let emitted (x : Schema) : Schema := match x with
-    | .obj p d (some r) a => .obj p d (requiredAfter (.obj p d (some r) a)) a
+    | .obj p d (some r) a => .obj p d (emittedRequired (.obj p d (some r) a)) a
     | .mapOf _ _ _ => .mapAny none none none   -- top-level map: nothing is emitted for it
     | y => y
   let sites := (defs.map fun (_, d) => stringSites pr (emitted d)).flatten ++ stringSites pr (emitted s)
     ++ (match desc with | some d => [descriptionSite d] | none => [])
   let unfaithful := sites.filter (fun x => !x.faithful)
-  -- the class the emitted text evaluates to (literals as the lexer reads them)
-  let effMain := effective sj
-  let effDefs := defsJ.mapM fun (n, d) => (effective d).map fun e => (n, e)
-  let docLex := match desc with
-    | none => some none
-    | some d => (PyLex.pyLexStr (PyLex.docWrap d)).map some
+  -- a site whose literal is not a well-formed single literal: the module does not compile
+  let unlexable := sites.any (fun x => (PyLex.pyLexStr x.source).isNone)
+  let docLex : Option String := match desc with
+    | none => none
+    | some d => PyLex.pyLexStr (PyLex.docWrap d)
   let crash := (defs.map fun (_, d) => topCrashes d).flatten ++ topCrashes s
-  let empty := bodyEmpty desc.isSome s || defs.any (fun (_, d) => bodyEmpty false d)
   let ordered := refsOrdered [] defs && (refsOf s).all (defs.map (·.1)).contains
   let phase :=
     if !crash.isEmpty then "gen"
-    else if effMain.isNone || effDefs.isNone || docLex.isNone || empty then "compile"
+    else if unlexable then "compile"
     else if !ordered then "exec"
     else "ok"
-  let classPart ← match effMain, effDefs, docLex with
-    | some em, some eds, some doc => do
-      let s' ← Schema.ofJson em
-      let defs' ← eds.mapM fun (n, d) => do pure (n, ← Schema.ofJson d)
-      let env := defsEnv [] defs'
-      let ρ := envResolver env
-      let cls := schemaToClass ρ name s'
-      pure [("decl", declToJson cls),
-            ("defDecls", Json.arr (env.map fun (n, d) => Json.arr #[Json.str n, declToJson d]).toArray),
-            ("back", Schema.toJson (toSchemaClass cls)),
-            ("defBacks", Json.arr (env.map fun (n, d) => Json.arr #[Json.str n, Schema.toJson (toSchemaClass d)]).toArray),
-            ("doc", match doc with | some d => Json.str d | none => Json.null)]
-    | _, _, _ => pure []
+  let env := defsEnv [] defs
+  let ρ := envResolver env
+  let cls := schemaToClass ρ name s
+  let classPart :=
+    [("decl", declToJson cls),
+     ("defDecls", Json.arr (env.map fun (n, d) => Json.arr #[Json.str n, declToJson d]).toArray),
+     ("back", Schema.toJson (toSchemaClass cls)),
+     ("defBacks", Json.arr (env.map fun (n, d) => Json.arr #[Json.str n, Schema.toJson (toSchemaClass d)]).toArray),
+     ("doc", match docLex with | some d => Json.str d | none => Json.null)]
   pure (Json.mkObj ([
     ("phase", Json.str phase),
     ("crashes", strs crash),
-    ("bodyEmpty", Json.bool empty),
     ("refsOrdered", Json.bool ordered),
     ("sites", Json.arr (sites.map siteJson).toArray),
     ("unfaithful", strs (unfaithful.map (·.site))),
